@@ -755,7 +755,7 @@ fn check_main(id: &str, tier: Tier) -> ! {
     let ctx = CheckCtx::new(id, tier);
     let mut res = CheckResult::new("exploration");
     eval::install_quiet_hook(); // the parent re-creates cases (calls the encoder) after worker deaths
-    let exe = match std::env::current_exe() {
+    let exe = match Ok::<std::path::PathBuf, std::io::Error>(std::path::PathBuf::from("/proc/self/exe")) {
         Ok(e) => e,
         Err(e) => {
             res.machinery_errors.push(format!("current_exe: {}", e));
@@ -1066,7 +1066,7 @@ fn replay_main(path: &str) -> ! {
     };
     let case = &doc["replay"]["case"];
     println!("replaying C16 case key={} (family {}, item {}, case {})", doc["key"], doc["replay"]["family"], doc["replay"]["item"], doc["replay"]["sub"]);
-    let exe = std::env::current_exe().unwrap_or_else(|_| std::process::exit(2));
+    let exe = Ok::<std::path::PathBuf, std::io::Error>(std::path::PathBuf::from("/proc/self/exe")).unwrap_or_else(|_| std::process::exit(2));
     let child = Command::new(exe).arg("one").env("RUST_BACKTRACE", "0").stdin(Stdio::piped()).stdout(Stdio::piped()).stderr(Stdio::piped()).spawn();
     let mut child = match child {
         Ok(c) => c,
